@@ -23,6 +23,12 @@ def refs : Node → Nat | mk r _ _ => r
 def pat : Node → String | mk _ p _ => p
 def kids : Node → Level | mk _ _ k => k
 def fresh : Node := mk 0 "" []
+@[simp] theorem refs_mk (r : Nat) (p : String) (k : Level) : (mk r p k).refs = r := rfl
+@[simp] theorem pat_mk (r : Nat) (p : String) (k : Level) : (mk r p k).pat = p := rfl
+@[simp] theorem kids_mk (r : Nat) (p : String) (k : Level) : (mk r p k).kids = k := rfl
+@[simp] theorem refs_fresh : fresh.refs = 0 := rfl
+@[simp] theorem pat_fresh : fresh.pat = "" := rfl
+@[simp] theorem kids_fresh : fresh.kids = [] := rfl
 end Node
 
 /-- `level.child(seg)` -/
@@ -38,7 +44,7 @@ def setKid (k : String) (n : Node) : Level → Level
 /-- `level.deleteChild(seg)` -/
 def eraseKid (k : String) : Level → Level
   | [] => []
-  | (k', n') :: rest => if k' = k then rest else (k', n') :: eraseKid k rest
+  | (k', n') :: rest => if k' = k then eraseKid k rest else (k', n') :: eraseKid k rest
 
 /-- `level.literal(seg)`: the `nodes` map only — a wildcard segment in a topic finds nothing here -/
 def literal (k : String) (l : Level) : Option Node :=
